@@ -328,12 +328,14 @@ Proof.
   intros HR HGL HLa Hd Hok Hout.
   assert (HGL' : GL (L ++ []) b) by (rewrite app_nil_r; exact HGL).
   assert (HLa' : lsn_below a (L ++ [])) by (rewrite app_nil_r; exact HLa).
-  destruct st; try discriminate; cbn [run_stmt run_rows op_sizes] in *.
-  - destruct (insert_rows b table cols rows [] 0) as [[b' B] o] eqn:E. cbn [e_out e_batch] in *. subst o.
+  destruct st; try discriminate; cbn [run_stmt run_rows op_sizes stmt_moves_ok] in *.
+  - destruct (first_err _ rows) as [u|e0|]; try discriminate.
+    destruct (insert_rows b table cols rows [] 0) as [[b' B] o] eqn:E. cbn [e_out e_batch] in *. subst o.
     destruct (prefix_insert_rows L rows a b table cols [] 0%nat b' B m HR HGL' HLa' Hok E) as (ws & -> & Hp). exact Hp.
   - destruct (existsb _ sets); [discriminate|].
     destruct (where_ids b table where_) as [ids|e|]; try discriminate.
     fold (upd_vals sets) in *.
+    destruct (first_err _ ids) as [u|e0|]; try discriminate.
     destruct (update_rows b table _ _ ids []) as [[b' B] o] eqn:E. cbn [e_out e_batch] in *. subst o.
     destruct (prefix_update_rows L ids a b table _ _ [] b' B m HR HGL' HLa' E) as (ws & -> & Hp). exact Hp.
   - destruct (where_ids b table where_) as [ids|e|]; try discriminate.
